@@ -280,6 +280,35 @@ def check_ring_lifetime(ctx, facts):
                     % (why or "the ring is not sized from this batch's plan"))
 
 
+def check_mmap_write_unconditional(ctx, facts, rid="C16.3"):
+    """The mmap arm of StorageImpl::write copies the bytes on every path that returns (assertions aside): the FD arm hands
+    every write to pwrite, which either writes or the offset is out of the file; a guard that skips the copy for some
+    (offset, len) makes the mmap backend drop a write the FD backend performs - the append is still acknowledged."""
+    try:
+        b = facts.body("storage::StorageImpl::write")
+    except Exception:
+        ctx.anchor_missing(rid, "storage::StorageImpl::write")
+        return
+    ctx.saw_body(b)
+    F = "storage::StorageImpl::write"
+    copies = [c for c in b.calls(re.compile(r"ptr::copy_nonoverlapping$|ptr::copy$|copy_from_slice$|clone_from_slice$|ptr::write_bytes$"))]
+    arm = None
+    for T in all_tests(b):
+        if T.kind == "discr" and T.variant_edges:
+            for vi, e in T.variant_edges.items():
+                if any(c.bb in b.reachable_from([e[1]]) for c in copies):
+                    arm = e
+    if not copies or arm is None:
+        ctx.anchor_missing(rid, "the copy in the Mmap arm of StorageImpl::write")
+        return
+    if b.must_pass([arm[1]], b.return_blocks(), [c.bb for c in copies]) or arm[1] in [c.bb for c in copies]:
+        ctx.ok(rid, F, "the Mmap arm performs the copy on every returning path", b.relfile, copies[0].line)
+    else:
+        ctx.violate(rid, F, "mmap-write-can-be-skipped", b.relfile, copies[0].line,
+                    "the Mmap arm of StorageImpl::write can return without copying the bytes (a guard around the copy): for the (offset, length) it excludes - e.g. a write that "
+                    "ends on the last byte of the file under `end < len` - the mmap backend silently drops what the FD backend writes, and the append is acknowledged")
+
+
 def run(ctx):
     for k, v in RULES.items():
         ctx.rule(k, v)
@@ -288,6 +317,7 @@ def run(ctx):
     check_encoders(ctx, facts)
     check_range_builders(ctx, facts)
     check_dispatch(ctx, facts)
+    check_mmap_write_unconditional(ctx, facts)
     ctx.assume("equality of results over operation sequences is NOT decided; the check decides agreement of the sibling implementations' format, guards and range arithmetic")
     return {
         "explanation": "sibling agreement on MIR: symbolic expressions are reconstructed for the two entry encoders and the three read-range builders and their feature vectors "
